@@ -33,14 +33,20 @@ class Ref:
 
 def reference(x):
     """``x``: nested Python lists [copy][taxon][locus] of ints in {0,1}."""
-    P = len(x); n = len(x[0]); m = len(x[0][0])
-    N = P * n
-    r = Ref()
-    r.P, r.n, r.m, r.N = P, n, m, N
+    P = len(x); n = len(x[0])
     d = []
     for i in range(n):
         rows = [x[k][i] for k in range(P)]
         d.append([sum(col) for col in zip(*rows)])
+    return reference_unphased(d, P)
+
+
+def reference_unphased(d, P):
+    """``d``: nested Python lists [taxon][locus] of per-taxon allele counts in 0..P (an unphased matrix's raw calls)."""
+    n = len(d); m = len(d[0])
+    N = P * n
+    r = Ref()
+    r.P, r.n, r.m, r.N = P, n, m, N
     r.d = d
     c = [sum(col) for col in zip(*d)]
     r.c = c
